@@ -1,1 +1,518 @@
--- property theorems for C09 (stub)
+import RP.Model.Regret
+import Mathlib.Tactic.Linarith
+import Mathlib.Tactic.FieldSimp
+import Mathlib.Tactic.Ring
+import Mathlib.Tactic.NormNum
+import Mathlib.Algebra.Order.Field.Basic
+import Mathlib.Algebra.Order.BigOperators.Group.List
+/-! # C09 — Regret matching always yields a valid strategy proportional to positive regret
+
+Objects: `RP.Regret.policyVector` (model of `Profile::policy_vector` with the divisor
+`epochs().max(1)` of the fixed code), `RP.Regret.record` (clamp + assertions of
+`Profile::regret_vector`), instantiated
+
+* with exact rationals `ratOps` (core `Rat` = Mathlib's `ℚ`): the ∀-statements about every regret
+  vector, every epoch counter (0 included), `ε = POLICY_MIN` as generated from `lib.rs`;
+* with extended rationals `extOps` (`finite | +inf | -inf | NaN`, Rust's `f32::max/min` NaN rule):
+  the clamp for *every* extended input, and the epoch-0 division of the pinned code;
+* with `Float32` (IEEE binary32, evaluated by the kernel): concrete witnesses of what exact
+  arithmetic cannot show — the epoch-0 NaN of the pinned code and the overflow of the sum for stored
+  regrets near `f32::MAX` (**KF-C09-overflow**, a finding about the code as it is now).
+
+What is *not* proved: that the `f32` computation stays within a rounding error of the rational one
+for all inputs (it does not: see `C09_overflow_witness`); the correspondence run compares the two
+on every generated case whose `f32` sum is finite. -/
+namespace RP.C09
+open RP.Arith RP.Regret
+
+/-! ## what the extractor read from the source (a change there breaks these) -/
+
+example : RP.Gen.C09.clampOpsTxt = ["max REGRET_MIN", "min REGRET_MAX"] := by decide
+example : RP.Gen.C09.regretAsserts = ["!r.is_nan()", "!r.is_infinite()"] := by decide
+example : RP.Gen.C09.policyFloorTxt = "max POLICY_MIN" := by decide
+example : RP.Gen.C09.epochFloor = 1 ∧ RP.Gen.C09.loadEpoch = 0 := by decide
+/-- the three constants are the f32 values `-3e5`, `f32::MAX`, `f32::MIN_POSITIVE = 2⁻¹²⁶` -/
+example : RP.Gen.C09.REGRET_MIN = -300000 ∧ RP.Gen.C09.REGRET_MAX = (2 ^ 24 - 1) * 2 ^ 104
+    ∧ RP.Gen.C09.POLICY_MIN = 1 / 2 ^ 126 := by decide +kernel
+
+/-! ## the rational closed form -/
+
+/-- `max(r / d, ε)` -/
+def fl (ε : ℚ) (d : ℕ) (r : ℚ) : ℚ := max (r / d) ε
+
+/-- `S = Σ_b max(R_b / d, ε)` -/
+def S (ε : ℚ) (d : ℕ) (R : List ℚ) : ℚ := (R.map (fl ε d)).sum
+
+/-- `p_a = max(R_a / d, ε) / S` -/
+def prob (ε : ℚ) (d : ℕ) (R : List ℚ) (r : ℚ) : ℚ := fl ε d r / S ε d R
+
+/-- sum of the positive parts -/
+def posSum (R : List ℚ) : ℚ := (R.map (fun r => max r 0)).sum
+
+theorem fl_pos {ε : ℚ} (hε : 0 < ε) (d : ℕ) (r : ℚ) : 0 < fl ε d r :=
+  lt_max_of_lt_right hε
+
+theorem S_pos {ε : ℚ} (hε : 0 < ε) (d : ℕ) {R : List ℚ} (hR : R ≠ []) : 0 < S ε d R := by
+  apply List.sum_pos
+  · intro x hx
+    obtain ⟨r, _, rfl⟩ := List.mem_map.1 hx
+    exact fl_pos hε d r
+  · simpa using hR
+
+theorem fl_le_S {ε : ℚ} (hε : 0 < ε) (d : ℕ) {R : List ℚ} {r : ℚ} (hr : r ∈ R) :
+    fl ε d r ≤ S ε d R := by
+  apply List.single_le_sum
+  · intro x hx
+    obtain ⟨r', _, rfl⟩ := List.mem_map.1 hx
+    exact (fl_pos hε d r').le
+  · exact List.mem_map.2 ⟨r, hr, rfl⟩
+
+/-- every probability is strictly positive -/
+theorem prob_pos {ε : ℚ} (hε : 0 < ε) (d : ℕ) {R : List ℚ} {r : ℚ} (hr : r ∈ R) :
+    0 < prob ε d R r :=
+  div_pos (fl_pos hε d r) (S_pos hε d (List.ne_nil_of_mem hr))
+
+/-- … and at most one -/
+theorem prob_le_one {ε : ℚ} (hε : 0 < ε) (d : ℕ) {R : List ℚ} {r : ℚ} (hr : r ∈ R) :
+    prob ε d R r ≤ 1 :=
+  (div_le_one (S_pos hε d (List.ne_nil_of_mem hr))).2 (fl_le_S hε d hr)
+
+theorem sum_map_div (l : List ℚ) (f : ℚ → ℚ) (c : ℚ) :
+    (l.map fun x => f x / c).sum = (l.map f).sum / c := by
+  induction l with
+  | nil => simp
+  | cons x xs ih => simp only [List.map_cons, List.sum_cons, ih]; ring
+
+/-- the probabilities sum to one -/
+theorem prob_sum_one {ε : ℚ} (hε : 0 < ε) (d : ℕ) {R : List ℚ} (hR : R ≠ []) :
+    (R.map (prob ε d R)).sum = 1 := by
+  have h := sum_map_div R (fl ε d) (S ε d R)
+  unfold prob
+  rw [h]
+  exact div_self (S_pos hε d hR).ne'
+
+
+theorem sum_map_const_eq (l : List ℚ) (c : ℚ) (f : ℚ → ℚ) (h : ∀ x ∈ l, f x = c) :
+    (l.map f).sum = l.length * c := by
+  induction l with
+  | nil => simp
+  | cons x xs ih =>
+    have hx : f x = c := h x (List.mem_cons_self ..)
+    have hxs : ∀ y ∈ xs, f y = c := fun y hy => h y (List.mem_cons_of_mem _ hy)
+    simp only [List.map_cons, List.sum_cons, List.length_cons, ih hxs, hx]
+    push_cast; ring
+
+/-- uniform when no `R_b / d` exceeds the floor (in particular when no regret is positive) -/
+theorem prob_uniform {ε : ℚ} (hε : 0 < ε) (d : ℕ) {R : List ℚ} (h : ∀ b ∈ R, b / d ≤ ε)
+    {r : ℚ} (hr : r ∈ R) : prob ε d R r = 1 / R.length := by
+  have hfl : ∀ b ∈ R, fl ε d b = ε := fun b hb => max_eq_right (h b hb)
+  have hS : S ε d R = R.length * ε := sum_map_const_eq R ε (fl ε d) hfl
+  have hn : (0 : ℚ) < R.length := by
+    have : 0 < R.length := List.length_pos_of_mem hr
+    exact_mod_cast this
+  unfold prob
+  rw [hS, hfl r hr]
+  field_simp
+
+/-- a non-positive stored regret is at the floor whatever the divisor -/
+theorem nonpos_at_floor {ε : ℚ} (hε : 0 < ε) (d : ℕ) {b : ℚ} (hb : b ≤ 0) : b / d ≤ ε := by
+  have : b / (d : ℚ) ≤ 0 := div_nonpos_of_nonpos_of_nonneg hb (Nat.cast_nonneg d)
+  linarith
+
+/-- actions at or above the floor get probabilities exactly in the ratio of their regrets -/
+theorem prob_ratio {ε : ℚ} (hε : 0 < ε) {d : ℕ} (hd : 0 < d) {R : List ℚ} {a b : ℚ}
+    (ha : a ∈ R) (hae : ε ≤ a / d) (hbe : ε ≤ b / d) :
+    prob ε d R a / prob ε d R b = a / b := by
+  have hd' : (0 : ℚ) < d := by exact_mod_cast hd
+  have hS := S_pos hε d (List.ne_nil_of_mem ha)
+  have hb : 0 < b := by
+    have : 0 < b / d := lt_of_lt_of_le hε hbe
+    rcases div_pos_iff.1 this with h | h
+    · exact h.1
+    · linarith [h.2]
+  unfold prob fl
+  rw [max_eq_left hae, max_eq_left hbe]
+  field_simp
+
+theorem sum_le_sum_map (l : List ℚ) (f g : ℚ → ℚ) (h : ∀ x ∈ l, f x ≤ g x) :
+    (l.map f).sum ≤ (l.map g).sum := by
+  induction l with
+  | nil => simp
+  | cons x xs ih =>
+    simp only [List.map_cons, List.sum_cons]
+    have := h x (List.mem_cons_self ..)
+    have := ih (fun y hy => h y (List.mem_cons_of_mem _ hy))
+    linarith
+
+theorem sum_map_add_const (l : List ℚ) (f : ℚ → ℚ) (c : ℚ) :
+    (l.map fun x => f x + c).sum = (l.map f).sum + l.length * c := by
+  induction l with
+  | nil => simp
+  | cons x xs ih => simp only [List.map_cons, List.sum_cons, List.length_cons, ih]; push_cast; ring
+
+theorem pos_part_le_fl {ε : ℚ} (hε : 0 < ε) {d : ℕ} (r : ℚ) : max r 0 / d ≤ fl ε d r := by
+  unfold fl
+  rcases le_total r 0 with h | h
+  · rw [max_eq_right h]; simp only [zero_div]; exact le_max_of_le_right hε.le
+  · rw [max_eq_left h]; exact le_max_left _ _
+
+theorem fl_le_pos_part_add {ε : ℚ} (hε : 0 < ε) {d : ℕ} (r : ℚ) : fl ε d r ≤ max r 0 / d + ε := by
+  unfold fl
+  have hd : (0 : ℚ) ≤ d := Nat.cast_nonneg d
+  have h0 : 0 ≤ max r 0 / (d : ℚ) := div_nonneg (le_max_right _ _) hd
+  have h1 : r / (d : ℚ) ≤ max r 0 / d := div_le_div_of_nonneg_right (le_max_left _ _) hd
+  apply max_le <;> linarith
+
+/-- `Σ R⁺ / d ≤ S ≤ Σ R⁺ / d + n ε` -/
+theorem S_bounds {ε : ℚ} (hε : 0 < ε) (d : ℕ) (R : List ℚ) :
+    posSum R / d ≤ S ε d R ∧ S ε d R ≤ posSum R / d + R.length * ε := by
+  constructor
+  · have := sum_le_sum_map R (fun r => max r 0 / d) (fl ε d) (fun r _ => pos_part_le_fl hε r)
+    rw [sum_map_div R (fun r => max r 0) d] at this
+    exact this
+  · have := sum_le_sum_map R (fl ε d) (fun r => max r 0 / d + ε) (fun r _ => fl_le_pos_part_add hε r)
+    rw [sum_map_add_const R (fun r => max r 0 / d) ε, sum_map_div R (fun r => max r 0) d] at this
+    exact this
+
+/-- the total probability of the actions below the floor is at most `n ε / S` -/
+theorem floor_mass {ε : ℚ} (hε : 0 < ε) (d : ℕ) {R : List ℚ} (hR : R ≠ []) :
+    ((R.filter (fun r => decide (r / d < ε))).map (prob ε d R)).sum ≤ R.length * ε / S ε d R := by
+  have hS := S_pos hε d hR
+  set F := R.filter (fun r => decide (r / d < ε)) with hF
+  have hconst : ∀ x ∈ F, prob ε d R x = ε / S ε d R := by
+    intro x hx
+    have : x / d < ε := by simpa using (List.mem_filter.1 hx).2
+    unfold prob fl
+    rw [max_eq_right this.le]
+  rw [sum_map_const_eq F _ _ hconst]
+  have hlen : (F.length : ℚ) ≤ R.length := by
+    exact_mod_cast List.length_filter_le _ R
+  have : 0 ≤ ε / S ε d R := (div_pos hε hS).le
+  calc (F.length : ℚ) * (ε / S ε d R) ≤ R.length * (ε / S ε d R) := mul_le_mul_of_nonneg_right hlen this
+    _ = R.length * ε / S ε d R := by ring
+
+/-- distance to textbook regret matching `R_a⁺ / Σ R⁺`: at most `n ε d / Σ R⁺` -/
+theorem prob_near_regret_matching {ε : ℚ} (hε : 0 < ε) {d : ℕ} (hd : 0 < d) {R : List ℚ}
+    (hP : 0 < posSum R) {a : ℚ} (ha : a ∈ R) :
+    |prob ε d R a - max a 0 / posSum R| ≤ R.length * ε * d / posSum R := by
+  have hd' : (0 : ℚ) < d := by exact_mod_cast hd
+  have hS := S_pos hε d (List.ne_nil_of_mem ha)
+  obtain ⟨hlo, hhi⟩ := S_bounds hε d R
+  have hX : 0 < posSum R / d := div_pos hP hd'
+  have hn : (1 : ℚ) ≤ R.length := by
+    have : 0 < R.length := List.length_pos_of_mem ha
+    exact_mod_cast this
+  have hm1 := pos_part_le_fl (d := d) hε a
+  have hm2 := fl_le_pos_part_add (d := d) hε a
+  have hx0 : 0 ≤ max a 0 / (d : ℚ) := div_nonneg (le_max_right _ _) hd'.le
+  have hxle : max a 0 / (d : ℚ) ≤ posSum R / d := by
+    apply div_le_div_of_nonneg_right _ hd'.le
+    unfold posSum
+    apply List.single_le_sum
+    · intro y hy; obtain ⟨r', _, rfl⟩ := List.mem_map.1 hy; exact le_max_right _ _
+    · exact List.mem_map.2 ⟨a, ha, rfl⟩
+  -- write x = a⁺/d, X = ΣR⁺/d, m = fl a, S
+  set x := max a 0 / (d : ℚ) with hx
+  set X := posSum R / (d : ℚ) with hXdef
+  set m := fl ε d a with hm
+  set s := S ε d R with hs
+  have e1 : max a 0 / posSum R = x / X := by
+    rw [hx, hXdef]; field_simp
+  have e2 : (R.length : ℚ) * ε * d / posSum R = R.length * ε / X := by
+    rw [hXdef]; field_simp
+  have e3 : prob ε d R a = m / s := rfl
+  rw [e1, e2, e3]
+  have key : m / s - x / X = (m * X - x * s) / (s * X) := by field_simp
+  rw [key, abs_le]
+  have hsX : 0 < s * X := mul_pos hS hX
+  constructor
+  · rw [le_div_iff₀ hsX]
+    have : -(R.length * ε / X) * (s * X) = -(R.length * ε * s) := by field_simp
+    rw [this]
+    nlinarith [mul_nonneg hx0 (mul_nonneg (by linarith : (0:ℚ) ≤ R.length) hε.le), mul_nonneg hx0 hS.le,
+      mul_le_mul_of_nonneg_left hxle (mul_nonneg (by linarith : (0:ℚ) ≤ R.length) hε.le)]
+  · rw [div_le_iff₀ hsX]
+    have : R.length * ε / X * (s * X) = R.length * ε * s := by field_simp
+    rw [this]
+    nlinarith [mul_pos hε hS, mul_nonneg hε.le hX.le, mul_le_mul_of_nonneg_left hlo hε.le]
+
+
+/-! ## the model computes the closed form and never aborts (exact arithmetic) -/
+
+theorem ratSum_eq (l : List ℚ) : ratOps.sum l = l.sum := by
+  have h : ∀ (l : List ℚ) (a : ℚ), l.foldl ratOps.add a = a + l.sum := by
+    intro l
+    induction l with
+    | nil => intro a; simp
+    | cons x xs ih => intro a; simp only [List.foldl_cons, List.sum_cons, ih]; simp only [ratOps]; ring
+  simp only [Ops.sum, h]; simp [ratOps]
+
+theorem floored_eq {κ : Type} (ε : ℚ) (dv : ℕ → ℕ) (t : ℕ) (kv : List (κ × ℚ)) :
+    floored ratOps dv ε t kv = kv.map (fun ar => (ar.1, fl ε (dv t) ar.2)) := by
+  unfold floored
+  apply List.map_congr_left
+  intro ar _
+  simp only [cumulated, ratOps, fl, max_def]
+
+theorem okProb_iff (p : ℚ) : okProb ratOps p = true ↔ 0 ≤ p ∧ p ≤ 1 := by
+  simp [okProb, ratOps, RP.Gen.C09.assertLo, RP.Gen.C09.assertHi]
+
+/-- **closed form / no abort.** For the traverser's node (`player = walker t`), any divisor
+    function, any `ε > 0` and any stored regrets, the model of `policy_vector` over exact
+    arithmetic returns (never aborts), keeps exactly the keys it was given, in order, and
+    assigns `p_a = max(R_a/d, ε) / Σ_b max(R_b/d, ε)`. -/
+theorem policyVectorWith_eq {κ : Type} {ε : ℚ} (hε : 0 < ε) (dv : ℕ → ℕ) (player t : ℕ)
+    (kv : List (κ × ℚ)) (hw : player = RP.Discount.walker t) :
+    policyVectorWith ratOps dv ε player t kv
+      = some (kv.map fun ar => (ar.1, prob ε (dv t) (kv.map (·.2)) ar.2)) := by
+  have hsum : ratOps.sum ((floored ratOps dv ε t kv).map (·.2)) = S ε (dv t) (kv.map (·.2)) := by
+    rw [floored_eq, ratSum_eq]; simp [S, List.map_map, Function.comp_def]
+  have hps : (floored ratOps dv ε t kv).map
+        (fun ax => (ax.1, ratOps.div ax.2 (ratOps.sum ((floored ratOps dv ε t kv).map (·.2)))))
+      = kv.map fun ar => (ar.1, prob ε (dv t) (kv.map (·.2)) ar.2) := by
+    rw [hsum, floored_eq, List.map_map]
+    apply List.map_congr_left
+    intro ar _
+    simp [prob, ratOps]
+  unfold policyVectorWith
+  rw [if_neg (by simpa using hw)]
+  simp only [hps]
+  rw [if_pos]
+  rw [List.all_eq_true]
+  intro ap hap
+  obtain ⟨ar, har, rfl⟩ := List.mem_map.1 hap
+  have hmem : ar.2 ∈ kv.map (·.2) := List.mem_map.2 ⟨ar, har, rfl⟩
+  exact (okProb_iff _).2 ⟨(prob_pos hε (dv t) hmem).le, prob_le_one hε (dv t) hmem⟩
+
+/-- the generated floor is positive -/
+theorem epsQ_pos : (0 : ℚ) < epsQ := by
+  unfold epsQ RP.Gen.C09.policyFloor RP.Gen.C09.POLICY_MIN; decide +kernel
+
+/-- **divisor never zero** (the `fix:` of F-C09): `epochs().max(1) ≥ 1` for every counter,
+    the value 0 of a freshly loaded profile included. Breaks when the `.max(k)` disappears
+    from the source (`epochFloor` is then generated as 0). -/
+theorem divisor_pos (t : ℕ) : 0 < divisor t :=
+  Nat.lt_of_lt_of_le (by decide : 0 < RP.Gen.C09.epochFloor) (Nat.le_max_right _ _)
+
+theorem divisor_eq_of_pos {t : ℕ} (ht : 1 ≤ t) : divisor t = t := by
+  unfold divisor; simp only [RP.Gen.C09.epochFloor]; omega
+
+theorem divisor_zero : divisor 0 = 1 := by decide
+
+/-- **C09 main statement over ℚ.** The code as it is now, at the traverser's information set, for
+    every epoch counter `t` (0 included), every non-empty stored regret vector, `ε = POLICY_MIN`:
+    no abort; keys = the action set; each probability in `(0,1]`; they sum to one. -/
+theorem C09_valid_distribution {κ : Type} (t : ℕ) (kv : List (κ × ℚ)) (hne : kv ≠ []) :
+    ∃ ps, policyVector ratOps epsQ (RP.Discount.walker t) t kv = some ps
+      ∧ ps.map (·.1) = kv.map (·.1)
+      ∧ (∀ ap ∈ ps, 0 < ap.2 ∧ ap.2 ≤ 1)
+      ∧ (ps.map (·.2)).sum = 1
+      ∧ ps = kv.map fun ar => (ar.1, prob epsQ (divisor t) (kv.map (·.2)) ar.2) := by
+  refine ⟨_, policyVectorWith_eq epsQ_pos divisor _ t kv rfl, ?_, ?_, ?_, rfl⟩
+  · simp [List.map_map, Function.comp_def]
+  · intro ap hap
+    obtain ⟨ar, har, rfl⟩ := List.mem_map.1 hap
+    have hmem : ar.2 ∈ kv.map (·.2) := List.mem_map.2 ⟨ar, har, rfl⟩
+    exact ⟨prob_pos epsQ_pos _ hmem, prob_le_one epsQ_pos _ hmem⟩
+  · have h := prob_sum_one epsQ_pos (divisor t) (R := kv.map (·.2)) (by simpa using hne)
+    simpa [List.map_map, Function.comp_def] using h
+
+/-- a node of the other player: the walker assertion aborts -/
+theorem C09_not_walker_aborts {κ : Type} (player t : ℕ) (kv : List (κ × ℚ))
+    (h : player ≠ RP.Discount.walker t) : policyVector ratOps epsQ player t kv = none := by
+  simp [policyVector, policyVectorWith, h]
+
+/-- **uniform when no regret is positive** -/
+theorem C09_uniform (t : ℕ) {R : List ℚ} (h : ∀ b ∈ R, b ≤ 0) {r : ℚ} (hr : r ∈ R) :
+    prob epsQ (divisor t) R r = 1 / R.length :=
+  prob_uniform epsQ_pos _ (fun b hb => nonpos_at_floor epsQ_pos _ (h b hb)) hr
+
+/-- **proportional to regret**: two actions whose `R/t` reaches the floor `ε = 2⁻¹²⁶` -/
+theorem C09_ratio (t : ℕ) {R : List ℚ} {a b : ℚ} (ha : a ∈ R)
+    (hae : epsQ ≤ a / divisor t) (hbe : epsQ ≤ b / divisor t) :
+    prob epsQ (divisor t) R a / prob epsQ (divisor t) R b = a / b :=
+  prob_ratio epsQ_pos (divisor_pos t) ha hae hbe
+
+/-- **proportional to the positive part up to the floor** -/
+theorem C09_near_regret_matching (t : ℕ) {R : List ℚ} (hP : 0 < posSum R) {a : ℚ} (ha : a ∈ R) :
+    |prob epsQ (divisor t) R a - max a 0 / posSum R| ≤ R.length * epsQ * divisor t / posSum R :=
+  prob_near_regret_matching epsQ_pos (divisor_pos t) hP ha
+
+-- non-vacuity of the hypotheses of `C09_ratio` / `C09_near_regret_matching` / `C09_uniform`
+example : epsQ ≤ (3 : ℚ) / divisor 2 ∧ epsQ ≤ (1 : ℚ) / divisor 2 ∧ (3 : ℚ) ∈ [3, -1, 1]
+    ∧ 0 < posSum [3, -1, 1] := by decide +kernel
+example : prob epsQ (divisor 2) [3, -1, 1] 3 / prob epsQ (divisor 2) [3, -1, 1] 1 = 3 / 1 :=
+  C09_ratio 2 (by decide +kernel) (by decide +kernel) (by decide +kernel)
+example : prob epsQ (divisor 0) [-2, 0, -7] (-7) = 1 / 3 := by
+  have := C09_uniform 0 (R := [-2, 0, -7]) (by decide +kernel) (r := -7) (by decide +kernel)
+  simpa using this
+
+-- non-vacuity: three actions, regrets 3, -1, 1 at epoch 2  →  3/4, ε-floor, 1/4 (up to ε)
+example : policyVector ratOps (1/1000 : ℚ) 0 2 [("fold", (3:ℚ)), ("call", -1), ("shove", 1)]
+    = some [("fold", 1500/2001), ("call", 1/2001), ("shove", 500/2001)] := by decide +kernel
+example : policyVector ratOps epsQ 1 0 [(0, (-5:ℚ)), (1, 0)] = none := by decide +kernel
+example : policyVector ratOps epsQ 0 0 [(0, (-5:ℚ)), (1, 0)] = some [(0, 1/2), (1, 1/2)] := by
+  decide +kernel
+
+
+/-! ## the clamp of `regret_vector`, for every extended input -/
+
+theorem REGRET_MIN_le_MAX : RP.Gen.C09.REGRET_MIN ≤ RP.Gen.C09.REGRET_MAX := by decide +kernel
+
+/-- the generated clamp is `max(REGRET_MIN)` then `min(REGRET_MAX)` (source order) -/
+theorem clampOpsExt_eq :
+    clampOpsExt = [(true, Ext.fin RP.Gen.C09.REGRET_MIN), (false, Ext.fin RP.Gen.C09.REGRET_MAX)] := rfl
+
+/-- `x.max(lo).min(hi)` with Rust's NaN rule lands in `[lo, hi]` for every extended `x` -/
+theorem clamp_range (lo hi : ℚ) (h : lo ≤ hi) (x : Ext) :
+    ∃ q, clamp extOps [(true, Ext.fin lo), (false, Ext.fin hi)] x = Ext.fin q ∧ lo ≤ q ∧ q ≤ hi := by
+  cases x with
+  | nan => exact ⟨lo, by simp [clamp, extOps, Ext.fmax, Ext.fmin, Ext.lt, not_lt.2 h], le_refl _, h⟩
+  | posInf => exact ⟨hi, by simp [clamp, extOps, Ext.fmax, Ext.fmin, Ext.lt], h, le_refl _⟩
+  | negInf => exact ⟨lo, by simp [clamp, extOps, Ext.fmax, Ext.fmin, Ext.lt, not_lt.2 h], le_refl _, h⟩
+  | fin q =>
+    by_cases h1 : q < lo
+    · exact ⟨lo, by simp [clamp, extOps, Ext.fmax, Ext.fmin, Ext.lt, h1, not_lt.2 h], le_refl _, h⟩
+    · by_cases h2 : hi < q
+      · exact ⟨hi, by simp [clamp, extOps, Ext.fmax, Ext.fmin, Ext.lt, h1, h2], h, le_refl _⟩
+      · exact ⟨q, by simp [clamp, extOps, Ext.fmax, Ext.fmin, Ext.lt, h1, h2], not_lt.1 h1, not_lt.1 h2⟩
+
+/-- **recorded regrets are finite and inside the clamp, and recording never aborts**: for every
+    extended value of the immediate regret (NaN and ±inf included) -/
+theorem C09_clamp (x : Ext) :
+    ∃ q, record extOps clampOpsExt x = some (Ext.fin q)
+      ∧ RP.Gen.C09.REGRET_MIN ≤ q ∧ q ≤ RP.Gen.C09.REGRET_MAX := by
+  obtain ⟨q, hq, h1, h2⟩ := clamp_range _ _ REGRET_MIN_le_MAX x
+  refine ⟨q, ?_, h1, h2⟩
+  rw [clampOpsExt_eq]
+  simp only [record, hq]
+  simp [extOps, Ext.isNaN, Ext.isInf]
+
+example : record extOps clampOpsExt Ext.nan = some (Ext.fin RP.Gen.C09.REGRET_MIN) := by decide +kernel
+example : record extOps clampOpsExt Ext.posInf = some (Ext.fin RP.Gen.C09.REGRET_MAX) := by decide +kernel
+example : record extOps clampOpsExt (Ext.fin (-300001)) = some (Ext.fin (-300000)) := by decide +kernel
+example : record extOps clampOpsExt (Ext.fin (5/2)) = some (Ext.fin (5/2)) := by decide +kernel
+
+/-! ## epoch counter 0: the pinned computation (divisor `epochs()`), extended values -/
+
+theorem ext_sum_posInf (l : List Ext) (hl : ∀ x ∈ l, x = Ext.posInf ∨ ∃ q : ℚ, x = Ext.fin q) :
+    ∀ acc, (acc = Ext.posInf ∨ ∃ q : ℚ, acc = Ext.fin q) →
+      (acc = Ext.posInf ∨ Ext.posInf ∈ l) → l.foldl Ext.add acc = Ext.posInf := by
+  induction l with
+  | nil => intro acc _ h; rcases h with h | h; exact h; simp at h
+  | cons x xs ih =>
+    intro acc hacc h
+    have hx := hl x (List.mem_cons_self ..)
+    have hxs : ∀ y ∈ xs, y = Ext.posInf ∨ ∃ q : ℚ, y = Ext.fin q :=
+      fun y hy => hl y (List.mem_cons_of_mem _ hy)
+    simp only [List.foldl_cons]
+    rcases hx with rfl | ⟨qx, rfl⟩
+    · -- adding +inf to +inf or to a finite value gives +inf
+      have : Ext.add acc Ext.posInf = Ext.posInf := by
+        rcases hacc with rfl | ⟨qa, rfl⟩ <;> rfl
+      rw [this]; exact ih hxs _ (Or.inl rfl) (Or.inl rfl)
+    · rcases hacc with rfl | ⟨qa, rfl⟩
+      · exact ih hxs _ (Or.inl rfl) (Or.inl rfl)
+      · apply ih hxs _ (Or.inr ⟨qa + qx, rfl⟩)
+        rcases h with h | h
+        · cases h
+        · rcases List.mem_cons.1 h with h | h
+          · cases h
+          · exact Or.inr h
+
+/-- **C09_epoch0_defect** (the pinned code, kept as a statement about the divisor `epochs()`):
+    at epoch counter 0, if some stored regret is positive, `R_a / 0 = +inf`, the sum is `+inf`,
+    `inf / inf = NaN`, and the assertion `p >= 0` aborts — for every finite regret vector. -/
+theorem C09_epoch0_defect {κ : Type} (ε : ℚ) (kv : List (κ × ℚ))
+    (hpos : ∃ ar ∈ kv, 0 < ar.2) :
+    policyVectorWith extOps divisorPinned (Ext.fin ε) 0 0 (kv.map fun ar => (ar.1, Ext.fin ar.2)) = none := by
+  obtain ⟨ar, har, hr⟩ := hpos
+  -- the floored vector: +inf where R_a > 0, ε elsewhere
+  have hfl : ∀ r : ℚ, extOps.fmax (cumulated extOps divisorPinned 0 (Ext.fin r)) (Ext.fin ε)
+      = if 0 < r then Ext.posInf else Ext.fin ε := by
+    intro r
+    by_cases h0 : r = 0
+    · subst h0; simp [cumulated, divisorPinned, extOps, Ext.div, Ext.fmax]
+    · by_cases h1 : 0 < r
+      · simp [cumulated, divisorPinned, extOps, Ext.div, Ext.fmax, Ext.lt, h0, h1]
+      · simp [cumulated, divisorPinned, extOps, Ext.div, Ext.fmax, Ext.lt, h0, h1]
+  have hfloored : floored extOps divisorPinned (Ext.fin ε) 0 (kv.map fun ar => (ar.1, Ext.fin ar.2))
+      = kv.map (fun ar => (ar.1, if 0 < ar.2 then Ext.posInf else Ext.fin ε)) := by
+    unfold floored
+    rw [List.map_map]
+    apply List.map_congr_left
+    intro x _
+    simp only [Function.comp_apply, hfl]
+  have hsum : extOps.sum ((kv.map (fun ar => (ar.1, if 0 < ar.2 then Ext.posInf else Ext.fin ε))).map (·.2))
+      = Ext.posInf := by
+    unfold Ops.sum
+    apply ext_sum_posInf
+    · intro x hx
+      simp only [List.map_map, List.mem_map, Function.comp_apply] at hx
+      obtain ⟨y, _, rfl⟩ := hx
+      by_cases h : 0 < y.2
+      · left; simp [h]
+      · right; exact ⟨ε, by simp [h]⟩
+    · right; exact ⟨0, rfl⟩
+    · right
+      simp only [List.map_map, List.mem_map, Function.comp_apply]
+      exact ⟨ar, har, by simp [hr]⟩
+  unfold policyVectorWith
+  rw [if_neg (by decide)]
+  simp only [hfloored, hsum]
+  rw [if_neg]
+  rw [Bool.not_eq_true, List.all_eq_false]
+  refine ⟨(ar.1, Ext.nan), ?_, ?_⟩
+  · simp only [List.map_map, List.mem_map, Function.comp_apply]
+    exact ⟨ar, har, by simp [hr, extOps, Ext.div]⟩
+  · simp [okProb, extOps, Ext.le]
+
+/-- the same regrets through the code as it is now: no abort at epoch counter 0 -/
+example : policyVector extOps epsExt 0 0 [(0, Ext.fin 1), (1, Ext.fin (-1))]
+    = some [(0, Ext.fin (1 / (1 + RP.Gen.C09.POLICY_MIN))),
+            (1, Ext.fin (RP.Gen.C09.POLICY_MIN / (1 + RP.Gen.C09.POLICY_MIN)))] := by decide +kernel
+example : policyVectorWith extOps divisorPinned epsExt 0 0 [(0, Ext.fin 1), (1, Ext.fin (-1))] = none := by
+  decide +kernel
+
+/-! ## binary32 witnesses (kernel evaluation of Lean's IEEE-754 model of `Float32`) -/
+
+def f32 (bits : Nat) : Float32 := Float32.ofBits (UInt32.ofNat bits)
+/-- `f32::MAX`, `1.0`, `-1.0`, `0.0`, a quiet NaN -/
+def fMAX : Float32 := f32 0x7F7FFFFF
+def fOne : Float32 := f32 0x3F800000
+def fNegOne : Float32 := f32 0xBF800000
+def fZero : Float32 := f32 0
+def fNaN : Float32 := f32 0x7FC00000
+
+/-- Rust's `f32::max` NaN rule in the binary32 instantiation: `NaN.max(x) = x` for every `x` -/
+theorem f32max_nan_left (x : Float32) : f32max fNaN x = x := by
+  have h : fNaN.isNaN = true := by decide +kernel
+  simp [f32max, h]
+
+/-- **C09_epoch0_witness** (binary32): the pinned computation (divisor `epochs()` = 0) on stored
+    regrets `[1.0, -1.0]` aborts — `1/0 = inf`, `inf + ε = inf`, `inf/inf = NaN` fails
+    `assert!(*p >= 0.)` — while the code as it is now returns `[1.0, 2⁻¹²⁶]`. -/
+theorem C09_epoch0_witness :
+    policyVectorWith f32Ops divisorPinned eps32 0 0 [(0, fOne), (1, fNegOne)] = none
+    ∧ policyVector f32Ops eps32 0 0 [(0, fOne), (1, fNegOne)] = some [(0, fOne), (1, f32 0x00800000)] := by
+  constructor <;> decide +kernel
+
+/-- **C09_overflow_witness** (binary32; finding KF-C09-overflow, code as it is now). Stored regrets
+    `[f32::MAX, f32::MAX]` lie inside the clamp (`REGRET_MAX = f32::MAX`); at epoch counter 1 the sum
+    `MAX + MAX` rounds to `+inf`, every quotient `MAX / inf` is `0.0`, both assertions pass, and the
+    returned "strategy" is `[0, 0]` — it sums to 0, not to 1. With the same values at counter 2 the
+    result is the correct `[1/2, 1/2]`. The exact-arithmetic theorems above cannot see this. -/
+theorem C09_overflow_witness :
+    policyVector f32Ops eps32 1 1 [(0, fMAX), (1, fMAX)] = some [(0, fZero), (1, fZero)]
+    ∧ policyVector f32Ops eps32 0 2 [(0, fMAX), (1, fMAX)] = some [(0, f32 0x3F000000), (1, f32 0x3F000000)]
+    ∧ (f32Ops.sum [fMAX, fMAX]).isInf = true := by
+  refine ⟨?_, ?_, ?_⟩ <;> decide +kernel
+
+/-- a stored `+inf` (outside the clamp, outside the property's quantifier) aborts: `inf/inf = NaN` -/
+example : policyVector f32Ops eps32 1 1 [(0, f32 0x7F800000), (1, fOne)] = none := by decide +kernel
+/-- the clamp on binary32: NaN → REGRET_MIN, +inf → f32::MAX, -inf → REGRET_MIN -/
+example : record f32Ops clampOps32 fNaN = some (f32 RP.Gen.C09.REGRET_MIN_bits) := by decide +kernel
+example : record f32Ops clampOps32 (f32 0x7F800000) = some fMAX := by decide +kernel
+example : record f32Ops clampOps32 (f32 0xFF800000) = some (f32 RP.Gen.C09.REGRET_MIN_bits) := by decide +kernel
+
+end RP.C09
